@@ -64,7 +64,10 @@ def load_findings():
 # ---------------------------------------------------------------- replay files
 def write_replay(prop, ob, tier):
     os.makedirs(os.path.join(ROOT, 'replay'), exist_ok=True)
-    safe = re.sub(r'[^A-Za-z0-9_.-]+', '_', f'{prop}_{ob.function}_{ob.name}')[:150]
+    full = f'{prop}_{ob.function}_{ob.name}'
+    safe = re.sub(r'[^A-Za-z0-9_.-]+', '_', full)
+    if len(safe) > 150:          # long function lists: keep the file name unique per obligation
+        safe = safe[:60] + '__' + safe[-70:] + '_' + hashlib.sha256(full.encode()).hexdigest()[:8]
     path = os.path.join(ROOT, 'replay', safe + '.json')
     w = ob.witness or {}
     json.dump(dict(property=prop, function=ob.function, obligation=ob.name, engine=ob.engine, strength=ob.strength,
